@@ -127,6 +127,17 @@ class Gen:
                 self.cases.append(dict(src=src, expect=expect, first=first, last=last, cfg=cfg, region=region, obs=obs,
                                        meta=dict(family=family, func=q, spelling=label, args=list(args), kws=[list(k) for k in kws],
                                                  multiline=ml, note=note)))
+                # the same call inside a helper defined ABOVE the import block (imports at the bottom of the module / a lazy initialiser): source order is not
+                # execution order, the call still denotes the same function (seeded change C15-m11 asked whether the module had been imported "so far").
+                # Only for spellings where the callee is written with its module path (`import m`): an alias bound below is not yet in bandit's table.
+                if label == "import_m" and pre.strip() and not ml and (self.thorough or self.rng.random() < 0.3):
+                    body = "def early_(b, url, sock, host):\n    x = " + callee + "(" + ", ".join(list(args) + [f"{k}={v}" for k, v in kws]) + ")\n    return x\n\n\n"
+                    src2 = body + extra_prelude + pre
+                    key2 = (src2, json.dumps(cfg, sort_keys=True))
+                    if key2 not in self.seen:
+                        self.seen.add(key2)
+                        self.cases.append(dict(src=src2, expect=expect, first=2, last=2, cfg=cfg, region=region, obs=obs,
+                                               meta=dict(family=family, func=q, spelling=label + "+imports-last", args=list(args), kws=[list(k) for k in kws], multiline=False, note=note)))
 
     def add_raw(self, family, src, first, last, expect, cfg=None, note=None, obs=None):
         key = (src, json.dumps(cfg, sort_keys=True))
@@ -664,4 +675,4 @@ def _run_main(res, ctx):
 def run(res, ctx):
     _run_main(res, ctx)
     # the neighbourhood of every construct of bandit's example files (harness/metamorph.py): model vs implementation on this family's ids
-    metamorph.family(res, ctx, C, set(MY_IDS), 700, 4000)
+    metamorph.family(res, ctx, C, set(MY_IDS), 700, 4000, sections={"weak_cryptographic_key", "ssl_with_bad_version"}, cfg_want=lambda s: "ssl" in s.lower() or "generate" in s or "key_size" in s)
